@@ -4,6 +4,7 @@ package main
 
 import (
 	"bufio"
+	"bytes"
 	"encoding/base64"
 	"encoding/json"
 	"errors"
@@ -276,7 +277,34 @@ func runHist(op map[string]any) (any, error) {
 			continue
 		}
 		if f, ok := step["out"].(string); ok {
-			b, err := p.Output(f)
+			var b []byte
+			var err error
+			switch step["via"] {
+			case "writer":
+				// OutputToWriter with the format spelled out
+				buf := &bytes.Buffer{}
+				err = p.OutputToWriter(buf, f)
+				b = buf.Bytes()
+			case "writer-default":
+				// OutputToWriter(fh, ""): the documented default is json-pretty (the step names that format)
+				buf := &bytes.Buffer{}
+				err = p.OutputToWriter(buf, "")
+				b = buf.Bytes()
+			case "file-ext":
+				// OutputToFile(path, ""): the format comes from the path's extension
+				dir, derr := os.MkdirTemp("", "bklgo-out-")
+				if derr != nil {
+					return nil, derr
+				}
+				path := dir + "/o." + f
+				err = p.OutputToFile(path, "")
+				if err == nil {
+					b, err = os.ReadFile(path)
+				}
+				os.RemoveAll(dir)
+			default:
+				b, err = p.Output(f)
+			}
 			if err != nil {
 				res = append(res, errObj(err))
 			} else {
